@@ -1136,3 +1136,10 @@ fi
 
     Ok(())
 }
+
+#[cfg(feature = "verif")]
+pub mod verif_hooks {
+    pub fn make_string_constant(s: &str) -> String {
+        super::make_string_constant(s)
+    }
+}
